@@ -660,6 +660,15 @@ class ComputeGraph(MultiDiGraph):
         code_gen = self.backend
         code_gen.code.clear()
 
+        # Functions that only appear in the derivatives (e.g. cos for a model that uses sin) have to be imported /
+        # defined in the generated module as well.  Must happen BEFORE generate_func_head (see below).
+        for d_expr in list(J0_entries.values()) + [e for entries in J_hist.values() for e in entries.values()]:
+            for f_app in self._resolve_derivatives(d_expr).atoms(sp.Function):
+                try:
+                    code_gen.get_op(type(f_app).__name__)
+                except KeyError:
+                    pass
+
         # Imports that the Jacobian assembly emits.  Must be declared BEFORE
         # generate_func_head, which materialises imports into the source file.
         code_gen.declare_local_array_imports()   # backend-specific (numpy / jax.numpy / ...)
